@@ -5,7 +5,9 @@ cd /repo || exit 9
 if [ -n "$(git status --porcelain)" ]; then echo "repo not clean"; exit 9; fi
 git apply "$P" || { echo "PATCH DOES NOT APPLY"; exit 8; }
 cd /verif && ./check "$ID" "$TIER" > /tmp/mutant.out 2>&1; rc=$?
-git -C /repo checkout -- . 
+# undo: the reverse patch also removes files the change added; fall back to a checkout
+git -C /repo apply -R "$P" 2>/dev/null || git -C /repo checkout -- .
+if [ -n "$(git -C /repo status --porcelain)" ]; then git -C /repo checkout -- .; git -C /repo status --porcelain | awk '$1=="??"{print $2}' | while read f; do rm -rf "/repo/$f"; done; fi
 grep -E "^(VIOLATION|KNOWN-FINDING|BROKEN-CHECK|  what:)" /tmp/mutant.out | head -6
 head -1 /tmp/mutant.out | grep -v '^WARNING' 
 echo "exit=$rc"
